@@ -52,6 +52,49 @@ enum Op {
     SetToPresent { sel: u16, from: u16 },
     /// get_rgb / get_color at index pick(sel, len + PAST_END)
     Lookup { sel: u16 },
+    /// insert the colour at index pick(sel, len) (certainly present) and remember that slot and colour as "marked"
+    Mark { sel: u16, via_rgb: bool },
+    /// insert the marked colour again (present or not by now)
+    InsertMarked { via_rgb: bool },
+    /// insert a colour that some mutator displaced from its slot earlier in the sequence (pick(sel, displaced.len()))
+    InsertFormer { sel: u16, via_rgb: bool },
+    /// any other public mutating method of Palette; its own effect is adopted, index stability is asserted
+    Mutate { m: Mutator, at: Slot },
+}
+
+/// which slot a slot-taking mutator works on
+#[derive(Clone, Debug, Hash, Serialize, Deserialize)]
+enum Slot {
+    /// pick(sel, len + PAST_END)
+    Sel(u16),
+    /// the marked slot (slot 0 if nothing is marked)
+    Marked,
+}
+
+/// Every `pub fn ..(&mut self ..)` of Palette besides insert_color / insert_color_rgb, the public fields, Clone, and the
+/// export -> load route. set_color / set_color_rgb also exist as Op::Set (where the written value is asserted).
+#[derive(Clone, Debug, Hash, Serialize, Deserialize)]
+enum Mutator {
+    /// set_color_hsl(slot, h/255, s/255, l/255)
+    SetHsl { h: u8, s: u8, l: u8 },
+    /// set_color / set_color_rgb(slot, rgb)
+    Set { rgb: Rgb, via_rgb: bool },
+    /// resize(slot): a shrink drops the slot and everything behind it, a grow appends
+    Resize,
+    /// clear()
+    Clear,
+    /// push(Color)
+    Push { rgb: Rgb, named: bool },
+    /// fill_to_16()
+    FillTo16,
+    /// get_checksum() (takes &mut self: updates a cache)
+    Checksum,
+    /// title / author / description assigned through the public fields
+    Meta,
+    /// continue on palette.clone()
+    CloneSwap,
+    /// continue on load_palette(Hex, export_palette(Hex))
+    Reload,
 }
 
 #[derive(Clone, Debug, Hash, Serialize, Deserialize)]
@@ -96,7 +139,44 @@ fn op() -> impl Strategy<Value = Op> {
         2 => (any::<u16>(), rgb(), any::<bool>()).prop_map(|(sel, rgb, via_rgb)| Op::Set { sel, rgb, via_rgb }),
         1 => (any::<u16>(), any::<u16>()).prop_map(|(sel, from)| Op::SetToPresent { sel, from }),
         2 => any::<u16>().prop_map(|sel| Op::Lookup { sel }),
+        1 => (any::<u16>(), any::<bool>()).prop_map(|(sel, via_rgb)| Op::Mark { sel, via_rgb }),
+        1 => any::<bool>().prop_map(|via_rgb| Op::InsertMarked { via_rgb }),
+        2 => (any::<u16>(), any::<bool>()).prop_map(|(sel, via_rgb)| Op::InsertFormer { sel, via_rgb }),
+        3 => (mutator(), prop_oneof![2 => any::<u16>().prop_map(Slot::Sel), 1 => Just(Slot::Marked)]).prop_map(|(m, at)| Op::Mutate { m, at }),
     ]
+}
+
+fn mutator() -> impl Strategy<Value = Mutator> {
+    prop_oneof![
+        4 => (any::<u8>(), prop_oneof![1 => Just(0u8), 3 => any::<u8>()], prop_oneof![1 => Just(0u8), 4 => any::<u8>()]).prop_map(|(h, s, l)| Mutator::SetHsl { h, s, l }),
+        2 => (rgb(), any::<bool>()).prop_map(|(rgb, via_rgb)| Mutator::Set { rgb, via_rgb }),
+        2 => Just(Mutator::Resize),
+        1 => Just(Mutator::Clear),
+        2 => (rgb(), any::<bool>()).prop_map(|(rgb, named)| Mutator::Push { rgb, named }),
+        1 => Just(Mutator::FillTo16),
+        1 => Just(Mutator::Checksum),
+        1 => Just(Mutator::Meta),
+        1 => Just(Mutator::CloneSwap),
+        1 => Just(Mutator::Reload),
+    ]
+}
+
+/// the cache-warm-up pattern: colour X is inserted (so any lookup structure knows it), an unrelated insert follows, a mutator
+/// rewrites X's slot, another unrelated insert, then X is inserted again
+fn warm_pattern() -> impl Strategy<Value = Vec<Op>> {
+    (any::<u16>(), any::<bool>(), rgb(), mutator(), rgb(), any::<bool>(), any::<bool>()).prop_map(|(sel, v1, r1, m, r2, v2, again_twice)| {
+        let mut v = vec![
+            Op::Mark { sel, via_rgb: v1 },
+            Op::InsertRgb { rgb: r1 },
+            Op::Mutate { m, at: Slot::Marked },
+            Op::Insert { rgb: r2, named: false },
+            Op::InsertMarked { via_rgb: v2 },
+        ];
+        if again_twice {
+            v.push(Op::InsertMarked { via_rgb: !v2 });
+        }
+        v
+    })
 }
 
 fn ops_case() -> impl Strategy<Value = OpsCase> {
@@ -106,7 +186,13 @@ fn ops_case() -> impl Strategy<Value = OpsCase> {
         4 => prop::collection::vec(rgb(), 0..=40).prop_map(Init::Colors),
         2 => prop::collection::vec(rgb(), 0..=MAX_COLOURS).prop_map(Init::Colors),
     ];
-    (init, prop::collection::vec(op(), 1..=24)).prop_map(|(init, ops)| OpsCase { init, ops })
+    // groups: single operations, now and then the warm-up pattern as a block (random operations around it)
+    let group = prop_oneof![12 => op().prop_map(|o| vec![o]), 1 => warm_pattern()];
+    (init, prop::collection::vec(group, 1..=20)).prop_map(|(init, groups)| {
+        let mut ops: Vec<Op> = groups.into_iter().flatten().collect();
+        ops.truncate(30);
+        OpsCase { init, ops }
+    })
 }
 
 fn mk_color(rgb: Rgb, named: bool) -> Color {
@@ -144,6 +230,10 @@ fn check_ops(c: &OpsCase) -> Verdict {
         return Verdict::fail("init.palette_differs_from_given_colours", format!("initial palette {:?} vs model {:?}", rgbs(&pal), model));
     }
     let (mut pushes, mut hits, mut dup_hits, mut skipped) = (0u32, 0u32, 0u32, 0u32);
+    // the marked slot and colour; colours displaced from their slot by a mutator; inserts of a colour after its slot was rewritten
+    let mut marked: Option<(usize, Rgb)> = None;
+    let mut displaced: Vec<Rgb> = Vec::new();
+    let (mut mutations, mut reinserts_after_mutation) = (0u32, 0u32);
 
     for (n, op) in c.ops.iter().enumerate() {
         let old_len = model.len();
@@ -158,9 +248,35 @@ fn check_ops(c: &OpsCase) -> Verdict {
                 }
                 Some((model[pick(*sel, old_len)], *via_rgb, *named))
             }
+            Op::Mark { sel, via_rgb } => {
+                if old_len == 0 {
+                    skipped += 1;
+                    continue;
+                }
+                let slot = pick(*sel, old_len);
+                marked = Some((slot, model[slot]));
+                Some((model[slot], *via_rgb, false))
+            }
+            Op::InsertMarked { via_rgb } => match marked {
+                Some((_, rgb)) => Some((rgb, *via_rgb, false)),
+                None => {
+                    skipped += 1;
+                    continue;
+                }
+            },
+            Op::InsertFormer { sel, via_rgb } => {
+                if displaced.is_empty() {
+                    skipped += 1;
+                    continue;
+                }
+                Some((displaced[pick(*sel, displaced.len())], *via_rgb, false))
+            }
             _ => None,
         };
         if let Some((rgb, via_rgb, named)) = ins {
+            if displaced.contains(&rgb) {
+                reinserts_after_mutation += 1;
+            }
             let first = model.iter().position(|m| *m == rgb);
             if first.is_none() && old_len >= MAX_COLOURS {
                 skipped += 1;
@@ -249,6 +365,94 @@ fn check_ops(c: &OpsCase) -> Verdict {
                     None
                 }
             }
+            Op::Mutate { m, at } => {
+                let slot = match at {
+                    Slot::Sel(sel) => pick(*sel, old_len + PAST_END),
+                    Slot::Marked => marked.map_or(0, |(s, _)| s),
+                };
+                if slot >= MAX_COLOURS || (matches!(m, Mutator::Push { .. }) && old_len >= MAX_COLOURS) {
+                    skipped += 1;
+                    continue;
+                }
+                mutations += 1;
+                // what the operation rewrites by its own contract: `rewritten` slots may change, `may_shrink_to` is the length it may cut to
+                let (name, rewritten, may_shrink_to): (&str, Option<usize>, Option<usize>) = match m {
+                    Mutator::SetHsl { h, s, l } => {
+                        pal.set_color_hsl(slot as u32, *h as f32 / 255.0, *s as f32 / 255.0, *l as f32 / 255.0);
+                        ("set_color_hsl", Some(slot), None)
+                    }
+                    Mutator::Set { rgb, via_rgb } => {
+                        if *via_rgb {
+                            pal.set_color_rgb(slot as u32, rgb.0, rgb.1, rgb.2);
+                        } else {
+                            pal.set_color(slot as u32, mk_color(*rgb, false));
+                        }
+                        ("set_color", Some(slot), None)
+                    }
+                    Mutator::Resize => {
+                        pal.resize(slot);
+                        ("resize", None, Some(slot))
+                    }
+                    Mutator::Clear => {
+                        pal.clear();
+                        ("clear", None, Some(0))
+                    }
+                    Mutator::Push { rgb, named } => {
+                        pal.push(mk_color(*rgb, *named));
+                        ("push", None, None)
+                    }
+                    Mutator::FillTo16 => {
+                        pal.fill_to_16();
+                        ("fill_to_16", None, None)
+                    }
+                    Mutator::Checksum => {
+                        let _ = pal.get_checksum();
+                        ("get_checksum", None, None)
+                    }
+                    Mutator::Meta => {
+                        pal.title = format!("t{n}");
+                        pal.author = "a".into();
+                        pal.description = String::new();
+                        ("meta_fields", None, None)
+                    }
+                    Mutator::CloneSwap => {
+                        pal = pal.clone();
+                        ("clone", None, None)
+                    }
+                    Mutator::Reload => {
+                        let bytes = pal.export_palette(&PaletteFormat::Hex);
+                        match Palette::load_palette(&PaletteFormat::Hex, &bytes) {
+                            Ok(p) => pal = p,
+                            Err(e) => return Verdict::fail("reload.load_error", format!("op {n}: load_palette(Hex) rejects the Hex export: {e}")),
+                        }
+                        ("reload_hex", None, None)
+                    }
+                };
+                let keep = may_shrink_to.map_or(old_len, |k| k.min(old_len));
+                let mut failure = None;
+                if pal.len() < keep {
+                    failure = Some(Verdict::fail(
+                        format!("{name}.valid_indices_removed"),
+                        format!("op {n}: {name} (slot {slot}) on {old_len} colours left {}; indices below {keep} were to stay valid", pal.len()),
+                    ));
+                } else if let Some(msg) = earlier_changed(&pal, &model[..keep], rewritten) {
+                    failure = Some(Verdict::fail(format!("{name}.other_index_changed"), format!("op {n}: {name} (slot {slot}); {msg}")));
+                }
+                if failure.is_none() {
+                    // the operation's own effect is adopted: colours that lost their slot are remembered for later re-insertion
+                    let now = rgbs(&pal);
+                    for (i, old) in model.iter().enumerate() {
+                        if now.get(i) != Some(old) && !now.contains(old) && !displaced.contains(old) {
+                            if displaced.len() >= 16 {
+                                displaced.remove(0);
+                            }
+                            displaced.push(*old);
+                        }
+                    }
+                    model = now;
+                }
+                failure
+            }
             _ => unreachable!(),
         };
         if let Some(v) = failure {
@@ -260,6 +464,10 @@ fn check_ops(c: &OpsCase) -> Verdict {
         }
     }
     let _ = skipped; // operations outside the 0..=300 domain or without a target; not part of the verdict
+    let _ = mutations;
+    if reinserts_after_mutation > 0 && pushes + hits > 1 {
+        return Verdict::pass(pushes > 0 && hits > 0, "reinsert_of_a_colour_displaced_by_a_mutator");
+    }
     let class = match (pushes > 0, hits > 0, dup_hits > 0) {
         (true, true, true) => "push+hit+hit_on_duplicate",
         (true, true, false) => "push+hit",
@@ -290,7 +498,7 @@ fn set_oracle(pal: &Palette, model: &mut Vec<Rgb>, idx: usize, rgb: Rgb, n: usiz
         model.push(pal.get_rgb(i as u32));
     }
     model[idx] = rgb;
-    None
+    None // (colours displaced by Op::Set are not tracked: Mutator::Set covers that route)
 }
 
 /// whole-palette agreement after every non-insert operation (cheap: <= 300 entries)
@@ -316,6 +524,8 @@ fn diverged(pal: &Palette, model: &[Rgb], n: usize) -> Option<Verdict> {
 enum Target {
     /// the index most recently handed out by a colour-adding sequence (entry 0 if none yet)
     LastHandedOut,
+    /// an index handed out earlier in the session, not necessarily the latest: pick(sel, handed.len()) (entry 0 if none yet)
+    HandedEarlier(u16),
     /// entry pick(sel, len)
     Existing(u16),
     /// one of the sixteen text colours
@@ -363,6 +573,7 @@ fn pool_rgb() -> impl Strategy<Value = Rgb> {
 fn pop() -> impl Strategy<Value = POp> {
     let target = prop_oneof![
         4 => Just(Target::LastHandedOut),
+        2 => any::<u16>().prop_map(Target::HandedEarlier),
         2 => any::<u16>().prop_map(Target::Existing),
         2 => (0u8..16).prop_map(Target::Low),
         2 => (0u8..4).prop_map(Target::New),
@@ -477,6 +688,13 @@ fn check_parser(c: &ParserCase) -> Verdict {
                 for (t, rgb) in entries {
                     let k = match t {
                         Target::LastHandedOut => last_handed,
+                        Target::HandedEarlier(sel) => {
+                            if handed.is_empty() {
+                                0
+                            } else {
+                                handed[pick(*sel, handed.len())].1
+                            }
+                        }
                         Target::Existing(sel) => pick(*sel, model.len()),
                         Target::Low(k) => *k as usize & 15,
                         Target::New(d) => model.len() + *d as usize,
@@ -979,12 +1197,16 @@ fn check_ega(c: &EgaCase) -> Verdict {
 fn main() {
     let mut eng = Engine::new("C16");
     eng.rule(
-        "ops: initial palette (empty | DOS default | 0..=40 | 0..=300 colours, components drawn 3:2 from {00,55,AA,FF} : any byte) and 1..=24 operations \
+        "ops: initial palette (empty | DOS default | 0..=40 | 0..=300 colours, components drawn 3:2 from {00,55,AA,FF} : any byte) and 1..=30 operations \
          (insert_color with/without name, insert_color_rgb, insert of a colour picked from the current palette, set_color/set_color_rgb up to 4 past the end, \
-         set to a colour already present, lookups up to 4 past the end); operations that would grow the palette beyond 300 colours are skipped. \
+         set to a colour already present, lookups up to 4 past the end, and every other public mutator of Palette: set_color_hsl, set_color/set_color_rgb, resize, clear, push, \
+         fill_to_16, get_checksum, the public title/author/description fields, clone, export+load as Hex - on a random slot or on the 'marked' slot; their own effect is adopted into the model, \
+         index stability of everything they do not rewrite is asserted; mark = insert a present colour and remember slot+colour, insert-marked, insert of a colour a mutator displaced earlier); \
+         1 group in 13 is the block mark / unrelated insert / mutator on the marked slot / unrelated insert / insert-marked; sequences are cut at 30 operations; \
+         operations that would grow the palette beyond 300 colours are skipped. \
          Non-trivial: the sequence performed at least one insert that appended AND at least one insert that found its colour present. \
          parser_ops: one ansi::Parser + 80x25 terminal buffer + caret, 1..=40 sequences out of {SGR 38/48;2;r;g;b (single, fg+bg pair, 'the same RGB again'), \
-         CTerm CSI 0/1;r;g;b t, SGR 38/48;5;n, SGR 30-37/40-47/90-97/100-107, OSC 4;k;rgb:rr/gg/bb[;k;rgb:..] ST with k = the index just handed out | an existing index | 0..15 | \
+         CTerm CSI 0/1;r;g;b t, SGR 38/48;5;n, SGR 30-37/40-47/90-97/100-107, OSC 4;k;rgb:rr/gg/bb[;k;rgb:..] ST with k = the index just handed out | one handed out earlier | an existing index | 0..15 | \
          a new index | any 0..=255, RIS, a letter}; RGB from a pool of 8 (8/9) or arbitrary. Non-trivial: at least one request that appended, one that found its colour present and one OSC 4. \
          files: format in {Hex,Pal,Gpl,Ice,Txt}, 0..=16 or 0..=256 colours with optional names, title/author/description/name texts each empty (3/15), \
          printable single-line text (5/15), a hand-listed string imitating a line of one of the formats (1/15), a line of the exported file of a decoy palette \
